@@ -13,3 +13,7 @@ extern const int ldata_ro_4[]; const void *l1_addr_ldata_ro_4(void){ return ldat
 const int ldata_ro_5[4] = { 196 };
 const void *addr_ldata_ro_5(void){ return ldata_ro_5; } int read_ldata_ro_5(void){ return ldata_ro_5[0]; }
 extern const int ldata_ro_5[]; const void *l1_addr_ldata_ro_5(void){ return ldata_ro_5; } int l1_read_ldata_ro_5(void){ return ldata_ro_5[0]; }
+int lalias_sw_6 = 146; extern __typeof(lalias_sw_6) w_lalias_sw_6 __attribute__((weak, alias("lalias_sw_6")));
+void *addr_lalias_sw_6(void){ return (void*)&w_lalias_sw_6; } int read_lalias_sw_6(void){ return w_lalias_sw_6; } void write_lalias_sw_6(int v){ w_lalias_sw_6 = v; } void *waddr_lalias_sw_6(void){ return (void*)&w_lalias_sw_6; }
+int lalias_multi_7[4]; extern __typeof(lalias_multi_7) w_lalias_multi_7 __attribute__((weak, alias("lalias_multi_7"))); extern __typeof(lalias_multi_7) t_lalias_multi_7 __attribute__((alias("lalias_multi_7")));
+void *addr_lalias_multi_7(void){ return (void*)w_lalias_multi_7; } int read_lalias_multi_7(void){ return w_lalias_multi_7[0]; } void write_lalias_multi_7(int v){ t_lalias_multi_7[0] = v; } void *waddr_lalias_multi_7(void){ return (void*)t_lalias_multi_7; }
